@@ -27,7 +27,7 @@ func ValidateSyncContribAndProof(ctx context.Context, signedContribAndProof *alt
 	contrib := &contribAndProof.Contribution
 
 	// [IGNORE] The contribution's slot is for the current slot (with a MAXIMUM_GOSSIP_CLOCK_DISPARITY allowance), i.e. contribution.slot == current_slot.
-	if err := CheckSlotSpan(scpVal.SlotAfter, contrib.Slot, 1); err != nil {
+	if err := CheckSlotSpan(scpVal.SlotAfter, contrib.Slot, 0); err != nil {
 		return nil, GossipValidatorResult{IGNORE, fmt.Errorf("contribution not for current slot: %v", err)}
 	}
 
